@@ -37,7 +37,7 @@ func errqLine(mode string, s errShape) string {
 	return sb.String()
 }
 
-func b01(b bool) string {
+func flag01(b bool) string {
 	if b {
 		return "1"
 	}
@@ -131,27 +131,27 @@ func genC06(g *Gen, tier string, w *bufio.Writer) {
 		}
 		switch shapeNo {
 		case 0: // WHERE
-			s = errShape{"SELECT c0 FROM e.csv t WHERE " + pred, "un map 0 un filter " + b01(fails) + " src csvSource 0", []qfile{e}}
+			s = errShape{"SELECT c0 FROM e.csv t WHERE " + pred, "un map 0 un filter " + flag01(fails) + " src csvSource 0", []qfile{e}}
 		case 1: // projection
-			s = errShape{"SELECT c0, " + pred + " AS p FROM e.csv t", "un map " + b01(fails) + " src csvSource 0", []qfile{e}}
+			s = errShape{"SELECT c0, " + pred + " AS p FROM e.csv t", "un map " + flag01(fails) + " src csvSource 0", []qfile{e}}
 		case 2: // DISTINCT above a failing projection
-			s = errShape{"SELECT DISTINCT c0, " + pred + " AS p FROM e.csv t", "un distinct 0 un map " + b01(fails) + " src csvSource 0", []qfile{e}}
+			s = errShape{"SELECT DISTINCT c0, " + pred + " AS p FROM e.csv t", "un distinct 0 un map " + flag01(fails) + " src csvSource 0", []qfile{e}}
 		case 3: // ORDER BY above a failing projection
-			s = errShape{"SELECT c0, " + pred + " AS p FROM e.csv t ORDER BY c0", ord("un map " + b01(fails) + " src csvSource 0"), []qfile{e}}
+			s = errShape{"SELECT c0, " + pred + " AS p FROM e.csv t ORDER BY c0", ord("un map " + flag01(fails) + " src csvSource 0"), []qfile{e}}
 		case 4: // nested ORDER BY + LIMIT above a failing filter
-			s = errShape{"SELECT * FROM (SELECT c0 FROM e.csv t WHERE " + pred + " ORDER BY c0 LIMIT 100) q", "un orderBy 0 un map 0 un filter " + b01(fails) + " src csvSource 0", []qfile{e}}
+			s = errShape{"SELECT * FROM (SELECT c0 FROM e.csv t WHERE " + pred + " ORDER BY c0 LIMIT 100) q", "un orderBy 0 un map 0 un filter " + flag01(fails) + " src csvSource 0", []qfile{e}}
 		case 5: // GROUP BY with a failing aggregate argument
-			s = errShape{"SELECT c1, COUNT(" + pred + ") AS c FROM e.csv t GROUP BY c1", "un map 0 un simpleGroupBy " + b01(fails) + " src csvSource 0", []qfile{e}}
+			s = errShape{"SELECT c1, COUNT(" + pred + ") AS c FROM e.csv t GROUP BY c1", "un map 0 un simpleGroupBy " + flag01(fails) + " src csvSource 0", []qfile{e}}
 		case 6: // GROUP BY above a failing filter, counting trigger
-			s = errShape{"SELECT c1, COUNT(c0) AS c FROM e.csv t WHERE " + pred + " GROUP BY c1 TRIGGER COUNTING 2", "un map 0 un customGroupBy 0 un filter " + b01(fails) + " src csvSource 0", []qfile{e}}
+			s = errShape{"SELECT c1, COUNT(c0) AS c FROM e.csv t WHERE " + pred + " GROUP BY c1 TRIGGER COUNTING 2", "un map 0 un customGroupBy 0 un filter " + flag01(fails) + " src csvSource 0", []qfile{e}}
 		case 7: // stream join, failing filter above the join
-			s = errShape{"SELECT t.c0, r.v FROM e.csv t JOIN r.csv r ON t.c0 = r.k WHERE " + strings.ReplaceAll(pred, "m", "t.m"), "un map 0 un filter " + b01(fails) + " bin streamJoin 0 src csvSource 0 src csvSource 0", []qfile{e, r}}
+			s = errShape{"SELECT t.c0, r.v FROM e.csv t JOIN r.csv r ON t.c0 = r.k WHERE " + strings.ReplaceAll(pred, "m", "t.m"), "un map 0 un filter " + flag01(fails) + " bin streamJoin 0 src csvSource 0 src csvSource 0", []qfile{e, r}}
 		case 8: // outer join with a failing subquery on one side
-			s = errShape{"SELECT t.c0, r.v FROM r.csv r LEFT JOIN (SELECT c0 FROM e.csv t2 WHERE " + pred + ") t ON t.c0 = r.k", "un map 0 bin outerJoin 0 src csvSource 0 un map 0 un filter " + b01(fails) + " src csvSource 0", []qfile{e, r}}
+			s = errShape{"SELECT t.c0, r.v FROM r.csv r LEFT JOIN (SELECT c0 FROM e.csv t2 WHERE " + pred + ") t ON t.c0 = r.k", "un map 0 bin outerJoin 0 src csvSource 0 un map 0 un filter " + flag01(fails) + " src csvSource 0", []qfile{e, r}}
 		case 9: // lookup join
-			s = errShape{"SELECT t.c0, r.v FROM e.csv t LOOKUP JOIN r.csv r ON t.c0 = r.k WHERE " + strings.ReplaceAll(pred, "m", "t.m"), "un map 0 un filter " + b01(fails) + " bin lookupJoin 0 src csvSource 0 src csvSource 0", []qfile{e, r}}
+			s = errShape{"SELECT t.c0, r.v FROM e.csv t LOOKUP JOIN r.csv r ON t.c0 = r.k WHERE " + strings.ReplaceAll(pred, "m", "t.m"), "un map 0 un filter " + flag01(fails) + " bin lookupJoin 0 src csvSource 0 src csvSource 0", []qfile{e, r}}
 		case 10: // subquery expression (single column)
-			s = errShape{"SELECT r.v FROM r.csv r WHERE r.k IN (SELECT c0 FROM e.csv t WHERE " + pred + ")", "un map 0 sub filter 0 singleColQuery src csvSource 0 un map 0 un filter " + b01(fails) + " src csvSource 0", []qfile{e, r}}
+			s = errShape{"SELECT r.v FROM r.csv r WHERE r.k IN (SELECT c0 FROM e.csv t WHERE " + pred + ")", "un map 0 sub filter 0 singleColQuery src csvSource 0 un map 0 un filter " + flag01(fails) + " src csvSource 0", []qfile{e, r}}
 		case 11: // malformed JSON row at a position
 			nj := 1 + g.Intn(130)
 			bad := g.Intn(nj + 1)
@@ -164,14 +164,14 @@ func genC06(g *Gen, tier string, w *bufio.Writer) {
 				}
 			}
 			shape := Pick(g, []string{"SELECT a FROM j.json t", "SELECT DISTINCT a FROM j.json t", "SELECT a FROM j.json t ORDER BY a", "SELECT a, COUNT(b) AS c FROM j.json t GROUP BY a"})
-			plan := "un map 0 src jsonSource " + b01(bad < nj)
+			plan := "un map 0 src jsonSource " + flag01(bad < nj)
 			switch {
 			case strings.Contains(shape, "DISTINCT"):
 				plan = "un distinct 0 " + plan
 			case strings.Contains(shape, "ORDER BY"):
 				plan = ord(plan)
 			case strings.Contains(shape, "GROUP BY"):
-				plan = "un map 0 un simpleGroupBy 0 src jsonSource " + b01(bad < nj)
+				plan = "un map 0 un simpleGroupBy 0 src jsonSource " + flag01(bad < nj)
 			}
 			s = errShape{shape, plan, []qfile{{"j.json", sb.String()}}}
 		case 12: // CSV row with the wrong number of fields
@@ -187,7 +187,7 @@ func genC06(g *Gen, tier string, w *bufio.Writer) {
 				}
 			}
 			shape := Pick(g, []string{"SELECT a FROM w.csv t", "SELECT DISTINCT a FROM w.csv t", "SELECT a FROM w.csv t ORDER BY a"})
-			plan := "un map 0 src csvSource " + b01(bad < nr)
+			plan := "un map 0 src csvSource " + flag01(bad < nr)
 			if strings.Contains(shape, "DISTINCT") {
 				plan = "un distinct 0 " + plan
 			} else if strings.Contains(shape, "ORDER BY") {
@@ -206,11 +206,11 @@ func genC06(g *Gen, tier string, w *bufio.Writer) {
 				}
 			}
 			shape := Pick(g, []string{"SELECT text FROM l.lines t", "SELECT DISTINCT text FROM l.lines t", "SELECT COUNT(text) AS c FROM l.lines t"})
-			plan := "un map 0 src linesSource " + b01(bad < nr)
+			plan := "un map 0 src linesSource " + flag01(bad < nr)
 			if strings.Contains(shape, "DISTINCT") {
 				plan = "un distinct 0 " + plan
 			} else if strings.Contains(shape, "COUNT") {
-				plan = "un map 0 un simpleGroupBy 0 src linesSource " + b01(bad < nr)
+				plan = "un map 0 un simpleGroupBy 0 src linesSource " + flag01(bad < nr)
 			}
 			s = errShape{shape, plan, []qfile{{"l.lines", sb.String()}}}
 		}
